@@ -67,7 +67,8 @@ class SuperfluousLinks:
     if not isinstance(segment, gfapy.Line):
       segment = self.try_get_segment(segment)
     for e in segment.dovetails:
-      if e.from_segment == e.to_segment:
+      # a self link is listed for both ends of the segment
+      if e.is_connected() and e.from_segment == e.to_segment:
         e.disconnect()
 
   def remove_self_links(self):
